@@ -113,6 +113,9 @@ func (fr *Frame) call(v ssa.Value, cc *ssa.CallCommon, st *State, ins ssa.Instru
 		return
 	}
 	name := callee.String()
+	if c.wantTermination() && c.fn != nil && c.eng.inModule(callee) && callee.Blocks != nil && c.eng.reaches(callee, c.fn) {
+		fr.recursionObligation(callee, cc, st, pos)
+	}
 	if fc := c.eng.cs.Funcs[name]; fc != nil {
 		how := "contract"
 		if fc.Trusted {
@@ -305,6 +308,7 @@ func (c *FnCtx) contractVars(fc *FuncContract, callee *ssa.Function, sig *types.
 				t := args[i]
 				t.Ty = p.Type()
 				vars[p.Name()] = t
+				vars[fmt.Sprintf("p%d", i)] = t
 			}
 		}
 		return vars
@@ -389,7 +393,7 @@ func (fr *Frame) applyContract(fc *FuncContract, callee *ssa.Function, sig *type
 					c.havocKey(st, k)
 					continue
 				}
-				if strings.HasPrefix(k, "g:") {
+				if strings.HasPrefix(k, "g:") || strings.HasPrefix(k, "gg:") {
 					c.havocKey(st, k)
 					continue
 				}
@@ -555,4 +559,46 @@ func (fr *Frame) builtin(v ssa.Value, b *ssa.Builtin, cc *ssa.CallCommon, st *St
 			}
 		}
 	}
+}
+
+// recursionObligation: a call that can lead back to the function being verified must decrease its measure.
+func (fr *Frame) recursionObligation(callee *ssa.Function, cc *ssa.CallCommon, st *State, pos token.Pos) {
+	c := fr.c
+	short := shortFuncName(callee.String())
+	fc2 := c.eng.cs.Funcs[callee.String()]
+	if c.fc.RecAssumed != "" {
+		c.abstracted("recursion through " + short + " assumed bounded: " + c.fc.RecAssumed)
+		return
+	}
+	if len(c.fc.Measure) == 0 || fc2 == nil || len(fc2.Measure) != len(c.fc.Measure) {
+		o := c.obligation("rec-dec", "", pos, "", st.reach, "false", nil)
+		o.Note = "call to " + short + " can re-enter " + c.fnName() + " and no decreasing measure is given (unbounded recursion)"
+		return
+	}
+	var args []Term
+	for _, a := range cc.Args {
+		args = append(args, fr.term(a, st))
+	}
+	vars := c.contractVars(fc2, callee, cc.Signature(), args, false)
+	en2 := &Env{c: c, vars: vars, cur: st, old: st, pkg: fc2.PkgPath}
+	en1 := &Env{c: c, vars: map[string]Term{}, cur: c.entry, old: c.entry, pkg: c.fc.PkgPath}
+	for k, v := range c.params {
+		en1.vars[k] = v
+	}
+	goal := "false"
+	for i := len(fc2.Measure) - 1; i >= 0; i-- {
+		a, err1 := en2.Eval(fc2.Measure[i].E)
+		b, err2 := en1.Eval(c.fc.Measure[i].E)
+		if err1 != nil || err2 != nil {
+			c.errorf("measure of %s / %s: %v %v", short, c.fnName(), err1, err2)
+			return
+		}
+		dec := and(app("<", a.S, b.S), app(">=", b.S, "0"))
+		if i == len(fc2.Measure)-1 {
+			goal = dec
+		} else {
+			goal = or(dec, and(app("=", a.S, b.S), goal))
+		}
+	}
+	c.obligation("rec-dec", "", pos, "", st.reach, goal, nil).Note = "measure decreases at call to " + short
 }
